@@ -231,6 +231,53 @@ func secchanFamily(a *Args) error {
 				nrel++
 			}
 			lines = append(lines, J{"ev": "stream", "case": b.ID, "i": len(wire) - 1, "v": v, "level": "decrypt", "wire": wire, "nrel": nrel, "relok": relok, "err": derr != nil, "offs": offs, "okend": okEnd})
+			// second delivery: frame by frame, as hap.Connection hands them over, and the receiver keeps being called after
+			// an error (nothing that follows an altered frame may be released either)
+			if v == 0 {
+				c2, err := hccrypto.NewSecureSessionFromSharedKey(secrets[0])
+				if err != nil {
+					mu.Lock()
+					firstErr = err
+					mu.Unlock()
+					return
+				}
+				var rel2 []byte
+				anyErr := false
+				okEnd2 := 0
+				// the receiver frames the stream by the length prefixes, as hap.Connection.peekFrame does
+				pos := 0
+				for pos+2 <= len(stream) {
+					l := int(binary.LittleEndian.Uint16(stream[pos:]))
+					end := pos + 2 + l + 16
+					if end > len(stream) {
+						anyErr = true // the frame never completes: the read fails when the stream ends
+						break
+					}
+					out, e := c2.Decrypt(bytes.NewReader(stream[pos:end]))
+					pos = end
+					if e != nil {
+						anyErr = true
+						continue
+					}
+					bb, _ := ioutil.ReadAll(out)
+					rel2 = append(rel2, bb...)
+					okEnd2 = end
+				}
+				if pos < len(stream) && !anyErr {
+					anyErr = true // a length prefix that never completes
+				}
+				n2, ok2 := 0, true
+				rest2 := rel2
+				for len(rest2) > 0 {
+					if n2 >= len(sent) || len(rest2) < len(sent[n2]) || !bytes.Equal(rest2[:len(sent[n2])], sent[n2]) {
+						ok2 = false
+						break
+					}
+					rest2 = rest2[len(sent[n2]):]
+					n2++
+				}
+				lines = append(lines, J{"ev": "stream", "case": b.ID, "i": len(wire) - 1, "v": v, "level": "frames", "wire": wire, "nrel": n2, "relok": ok2, "err": anyErr, "offs": offs, "okend": okEnd2})
+			}
 		}
 		tr.Block(lines)
 		mu.Lock()
